@@ -26,17 +26,26 @@ CHUNK = 2            # frames per chunk in the harness runs
 STYLES = ("explicit", "with", "with-exc")   # how the caller closes the manager
 
 
-def audio_for(player, nchunks, short_tail):
+class Audio(list):
+    """The samples of one player, with the number of channels it is played with (a chunk is CHUNK frames, that is
+    CHUNK * channels samples)."""
+    channels = 1
+
+
+def audio_for(player, nchunks, short_tail, channels=1):
     """Distinct sample values per player; `short_tail` leaves the last chunk partly filled (zero padding)."""
-    n = nchunks * CHUNK - (1 if (short_tail and nchunks > 0) else 0)
-    return [float(100 * player + i + 1) for i in range(n)]
+    n = nchunks * CHUNK * channels - (1 if (short_tail and nchunks > 0) else 0)
+    a = Audio(float(100 * player + i + 1) for i in range(n))
+    a.channels = channels
+    return a
 
 
 def expected_bytes(audio):
+    ch = getattr(audio, "channels", 1)
     data = list(audio)
-    if len(data) % CHUNK:
-        data += [0.0] * (CHUNK - len(data) % CHUNK)
-    return [struct.pack("%df" % CHUNK, *data[i:i + CHUNK]) for i in range(0, len(data), CHUNK)]
+    if len(data) % (CHUNK * ch):
+        data += [0.0] * (CHUNK * ch - len(data) % (CHUNK * ch))
+    return [struct.pack("%df" % (CHUNK * ch), *data[i:i + CHUNK * ch]) for i in range(0, len(data), CHUNK * ch)]
 
 
 class Execution(object):
@@ -168,7 +177,11 @@ class Execution(object):
     def _control(self, io, op):
         if op[0] == "play":
             try:
-                io.play(self.audios[len(self.players)], chunk_size=CHUNK)
+                audio = self.audios[len(self.players)]
+                if getattr(audio, "channels", 1) == 1:
+                    io.play(list(audio), chunk_size=CHUNK)
+                else:
+                    io.play(list(audio), chunk_size=CHUNK, channels=audio.channels)
                 self.obs.append({"k": "ret-play", "t": 0, "n": 0})
             except RuntimeError:
                 self.obs.append({"k": "ret-play", "t": 0, "n": 1})
@@ -552,7 +565,11 @@ def m2(ctx, h, cfg, wait, limit=None):
             if checkpoints and all(b["pc"][q] not in INVISIBLE for q in b["pc"]):
                 checkpoints[-1] = spec_proj(b, np_)
         errors = []
-        ex = Execution(h, program, audios, wait, None, style=STYLES[pi % 3])
+        if pi % 5 == 4:
+            audios_pi = [audio_for(i + 1, nchunks[i], i % 2 == 0, channels=2 if i == 0 else 1) for i in range(np_)]
+        else:
+            audios_pi = audios
+        ex = Execution(h, program, audios_pi, wait, None, style=STYLES[pi % 3])
         ch = script_choice(script, ex, errors)
         ex.sched.choose = ch
         ex.run()
@@ -762,7 +779,8 @@ def m3(ctx, h, count):
         nch = list(configs[k % len(configs)])
         np_ = len(nch)
         wait = (k // len(configs)) % 2 == 0
-        audios = [audio_for(i + 1, nch[i], rng.random() < 0.5) for i in range(np_)]
+        audios = [audio_for(i + 1, nch[i], rng.random() < 0.5, channels=2 if (k + i) % 4 == 3 else 1)
+                  for i in range(np_)]
         prog = random_program(rng, np_, 5, wait)
         if k % 2:
             choose = random_choice(rng)
